@@ -1,1 +1,4 @@
-//! Hooks for property C02 (empty until needed).
+//! Hooks for property C02: the prune planner on supplied index files, used ids,
+//! pack listing, clock and options (implemented in `c02_planner.rs`, which is mounted
+//! as a child module of `commands::prune` to reach its private items).
+pub use crate::commands::prune::verif_c02::*;
